@@ -111,6 +111,7 @@ class Extraction:
         self.outlines = []    # (id, src, repl, kind)
         self.proofs = []      # (where, stmt text, proof text)
         self.matched = {}     # id -> matched source text
+        self.tail = None      # fragment only: expression appended as the return value
 
 
 class Generated:
@@ -243,6 +244,50 @@ def desugar_let_chains(body, drops, fn_disp):
             new = "loop %s" % ("{ if %s { %s } break; }" % (ops[0], _nest(ops[1:], blk)))
             drops.append("%s: let-chain `while %s` desugared to loop/if-let/continue/break (rule 2)" % (fn_disp, re.sub(r"\s+", " ", cond.strip())[:100]))
             body = body[:s] + new + body[c + 1:]
+
+
+def desugar_for_ranges(body, drops, fn_disp):
+    """rule 3: `for x in A..B { BODY }` (x an identifier, exclusive range, no `continue` in BODY) ->
+    `{ let mut x = A; let for_end_ = B; while x < for_end_ { BODY x += 1; } }`.
+    Needed because Verus' ghost iterator for Range requires A <= B, while Rust simply runs zero times."""
+    count = 0
+    while True:
+        masked = rsrc.mask(body)
+        found = None
+        for m in re.finditer(r"\bfor\s+([A-Za-z_]\w*)\s+in\b", masked):
+            o, c = _block_after(masked, m.end())
+            hdr = masked[m.end():o]
+            # top-level `..` (not `..=`)
+            depth, k, dots = 0, 0, -1
+            while k < len(hdr) - 1:
+                ch = hdr[k]
+                if ch in "([{":
+                    depth += 1
+                elif ch in ")]}":
+                    depth -= 1
+                elif ch == "." and hdr[k + 1] == "." and depth == 0:
+                    dots = k
+                    break
+                k += 1
+            if dots < 0 or hdr[dots + 2:dots + 3] == "=":
+                continue
+            if re.search(r"\bcontinue\b", masked[o:c]):
+                continue
+            found = (m, o, c, dots)
+            break
+        if not found:
+            return body
+        m, o, c, dots = found
+        var = m.group(1)
+        a = body[m.end():m.end() + dots].strip()
+        b = body[m.end() + dots + 2:o].strip()
+        if not a or not b:
+            return body
+        count += 1
+        new = "{ let mut %s = %s; let for_end_%d = %s; while %s < for_end_%d {%s %s += 1; } }" % (
+            var, a, count, b, var, count, body[o + 1:c], var)
+        drops.append("%s: `for %s in %s..%s` desugared to an equivalent while loop (rule 3)" % (fn_disp, var, a[:40], b[:40]))
+        body = body[:m.start()] + new + body[c + 1:]
 
 
 def _nest(ops, blk):
@@ -528,6 +573,7 @@ def expand(template_path, tree):
             body = _strip_comments(body)
             body = _strip_log_stmts(body, gen.drops, fn_disp)
             body = desugar_let_chains(body, gen.drops, fn_disp)
+            body = desugar_for_ranges(body, gen.drops, fn_disp)
             body = _insert_proofs(body, ex, fn_disp)
             body = _apply_subst(body, ex, gen, fn_disp)
             outlines_seen.update(ex.matched)
@@ -554,6 +600,8 @@ def expand(template_path, tree):
                 emit("    decreases " + decs[0].expr)
             emit("{", origin=(fn_disp, f, src_line))
             emit(body, origin=(fn_disp, f, src_line))
+            if ex.tail:
+                emit("    " + ex.tail)
             emit("}")
             last = len(out_lines)
             gen.functions.append(fn_disp)
@@ -649,6 +697,8 @@ def _parse_extract_directive(ex, e):
         ex.sig = e[4:].strip()
     elif e.startswith("ret:"):
         ex.ret = e[4:].strip()
+    elif e.startswith("tail:"):
+        ex.tail = e[5:].strip()
     elif e == "noret":
         ex.noret = True
     elif e.startswith("fragment:"):
@@ -686,12 +736,13 @@ def _parse_extract_directive(ex, e):
         raise SpecError("unknown extract directive: " + e)
 
 
-def make_canary(gen):
-    """variant of the generated text in which every function that has a `requires` additionally
-    ensures false; Verus must reject each of them (vacuity guard)"""
+def make_canary(gen, only=None):
+    """variant of the generated text in which ONE extracted function (`only`) additionally
+    ensures false; Verus must reject it (vacuity guard).  One function per file: a canary on a
+    callee would make its callers verify trivially."""
     lines = gen.text.split("\n")
     out = []
-    targets = {gen.fn_lines[f][0]: f for f in gen.canary_fns}
+    targets = {gen.fn_lines[f][0]: f for f in gen.canary_fns if only is None or f == only}
     inject_at = {}
     for first, f in targets.items():
         last = gen.fn_lines[f][1]
